@@ -9,6 +9,7 @@
 (*   "lex"    chars (code points of a text), toks (observed token texts as code points,        *)
 (*            <<<<-1>>>> if the tokeniser raised)                                              *)
 (*   "scaled" the shipped rules through get_ruleset with multipliers (after the items)         *)
+(*   "file"   a shipped rule file was parsed as a whole by the real parser (exc = "" or the error) *)
 (*   "begin" / "item"  the shipped rule files, one event per DEFINE / RULE item, validated      *)
 (*            statefully: the model state (aliases, rules) lives in the variable st and is      *)
 (*            resynchronised to the logged state after a mismatch                               *)
@@ -124,7 +125,8 @@ ItemNext(ev) ==
 ScaledFailed(ev) ==
     LET names == {ev.rules[j].name : j \in DOMAIN ev.rules}
         obs(name) == ev.rules[CHOOSE j \in DOMAIN ev.rules : ev.rules[j].name = name]
-    IN  IF names # KnownNames(st.rules) \/ Len(ev.rules) # Len(st.rules) THEN {"rule_names"}
+    IN  IF ev.exc # "" THEN {"ruleset_built:" \o ev.exc}
+        ELSE IF names # KnownNames(st.rules) \/ Len(ev.rules) # Len(st.rules) THEN {"rule_names"}
         ELSE (IF \E i \in DOMAIN st.rules : obs(st.rules[i].name).cutoff # (st.rules[i].cutoff * ev.mult[1]) \div ev.mult[2]
               THEN {"cutoff_scaled"} ELSE {})
              \cup (IF \E i \in DOMAIN st.rules : obs(st.rules[i].name).nbhd # (st.rules[i].nbhd * ev.mult[3]) \div ev.mult[4]
@@ -134,6 +136,7 @@ Failed(ev) == CASE ev.op = "parse" -> ParseFailed(ev)
                 [] ev.op = "scaled" -> ScaledFailed(ev)
                 [] ev.op = "lex" -> LexFailed(ev)
                 [] ev.op = "item" -> ItemFailed(ev)
+                [] ev.op = "file" -> IF ev.exc # "" THEN {"parses:" \o ev.exc} ELSE {}
                 [] ev.op = "begin" -> {}
                 [] OTHER -> {"trace/unknown_op"}
 Tagged(ev) == {IF ev.op = "parse" THEN ev.via \o "/" \o c ELSE ev.op \o "/" \o c : c \in Failed(ev)}
